@@ -77,7 +77,7 @@ def _do_actions(chart, acts, i):
 
 
 def _h(i, chart, e):
-    t = T
+    t = getattr(chart, "mc_table", None) or T
     t.calls += 1
     if t.calls > t.budget:
         raise BudgetExceeded("handler budget")
